@@ -68,7 +68,10 @@ pub fn record(out: &mut dyn Write, r: &mut ChaCha20Rng, n: usize) {
             "ours":ser(&a, true),"ref":ser(&ar, true),"ours_unc":ser(&a, false),"ref_unc":ser(&ar, false)}));
         let b = g2o.into_affine();
         let br = g2r.into_affine();
-        emit(out, json!({"k":"blsgen","grp":"G2","ours":ser(&b, true),"ref":ser(&br, true),"ours_unc":ser(&b, false),"ref_unc":ser(&br, false)}));
+        let (bx, by) = b.xy().unwrap();
+        emit(out, json!({"k":"blsgen","grp":"G2","x":[bx.c0.to_bytes_le().to_vec(), bx.c1.to_bytes_le().to_vec()],
+            "y":[by.c0.to_bytes_le().to_vec(), by.c1.to_bytes_le().to_vec()],
+            "ours":ser(&b, true),"ref":ser(&br, true),"ours_unc":ser(&b, false),"ref_unc":ser(&br, false)}));
     }
     let sc = scalars(r, n);
     let so = |b: &[u8]| SO::from_le_bytes_mod_order(b);
